@@ -514,8 +514,27 @@ def layer3(ctx, failed_rules):
             distinct.add(rec)
             jid += 1
             n_spread += 1
+    # norms of sums whose terms carry a common scalar factor or denominator (symbolic, integer, negative)
+    inv = lambda num, d: ("sdiv", ("int", num), d)
+    s0, s1 = ("ssym", 0), ("ssym", 1)
+    norm_family = []
+    for d in (s0, ("smul", ("int", 2), s1), ("smul", s0, s1), ("smul", ("int", -3), s0)):
+        norm_family += [("norm", ("vadd", ("vscale", inv(1, d), V(0)), ("vscale", inv(1, d), V(1)))),
+            ("norm", ("vadd", ("vscale", inv(2, d), V(0)), ("vscale", inv(-1, d), ("cross", V(0), V(1))))),
+            ("norm", ("vscale", inv(1, d), ("vadd", V(0), V(1)))),
+            ("smul", s1, ("norm", ("vadd", ("vscale", inv(1, d), V(0)), ("vadd", ("vscale", inv(3, d), V(1)), ("vscale", inv(1, d), V(0))))))]
+    for k in (s0, ("int", -2), ("smul", ("int", -1), s1), ("smul", s0, s1)):
+        norm_family += [("norm", ("vadd", ("vscale", k, V(0)), ("vscale", k, V(1)))), ("norm", ("vscale", k, ("cross", V(0), V(1))))]
+    for rec in norm_family:
+        job = {"id": jid, "recipe": rec, "nv": 2, "ns": 2, "mode": rng.choice(["auto", "doit"]), "rank": all_ranks(2, rng, 1)[0],
+            "envs": [vtree.rand_env(rng, 2, 2).to_json() for _ in range(8)]}
+        jobs_by_seed[None].append(job)
+        meta[jid] = job
+        distinct.add(rec)
+        jid += 1
     results = {}
-    ctx.log(f"{jid} builds of {ntrees} recipes (+{n_spread} with a composite operand placed between symbols)")
+    ctx.log(f"{jid} builds of {ntrees} recipes (+{n_spread} with a composite operand placed between symbols, +{len(norm_family)} norms "
+        "with common factors/denominators)")
     for s, jobs in jobs_by_seed.items():
         for chunk in range(0, len(jobs), 400):
             for r in run_jobs(jobs[chunk:chunk + 400], s):
